@@ -2,6 +2,7 @@
    and safely.  Only statements here; proofs live in Cfg/*Proofs.v. *)
 From Coq Require Import List ZArith Bool.
 From ABT Require Import Cfg.Hashtable Cfg.HashtableProofs Cfg.Atoi Cfg.AtoiProofs.
+From ABT Require Import Cfg.Affinity Cfg.AffinityProofs Cfg.EnvClamp Cfg.EnvClampProofs.
 Import ListNotations.
 Local Open Scope Z_scope.
 
@@ -67,4 +68,196 @@ Example C20_atoi_example :
   atoi_int [32; 45; 45; 43; 45; 49; 50; 51; 52; 97; 45] = Some (-1234, false) /\
   atoi_int [50;49;52;55;52;56;51;54;52;56] = Some (2147483647, true) /\
   atoi_ui64 [49;56;52;52;54;55;52;52;48;55;51;55;48;57;53;53;49;54;49;54] = Some (U64MAX, true).
+Proof. vm_compute. repeat split; reflexivity. Qed.
+
+(* ================================================================== *)
+(* ABT_SET_AFFINITY parser (src/arch/abtd_affinity_parser.c).
+   [affinity_list_create] is ABTD_affinity_list_create with the two-line fix of
+   finding F3 (fixes/F3-consume-int-overflow.patch); [affinity_list_create_buggy]
+   is the code as it stands.  A string is a list of character codes;
+   [cstring s] is its prefix before the first NUL.  Results: Ok lists | Fail
+   (ABT_ERR_OTHER) | Oob (a read beyond the terminating NUL) | OutOfFuel |
+   IntOvf (a signed int operation overflowed). *)
+
+(* Every index read is at most the position of the terminating NUL, and the
+   fuel (length + 1 per loop) is never exhausted -- for the fixed code and for
+   the code as it stands (where IntOvf = undefined behaviour ends the run). *)
+Theorem C20_affinity_memory_safe : forall s,
+  affinity_list_create (Some s) <> Oob /\ affinity_list_create (Some s) <> OutOfFuel /\
+  affinity_list_create_buggy (Some s) <> Oob /\ affinity_list_create_buggy (Some s) <> OutOfFuel.
+Proof. exact affinity_memory_safe. Qed.
+Print Assumptions C20_affinity_memory_safe.
+
+(* accepted => the string is in the documented grammar (white space explicit),
+   and the result is the documented expansion, each id taken modulo 2^32 into
+   the range of int (the C code computes id + stride * i in uint32_t) *)
+Theorem C20_affinity_sound : forall s lists,
+  affinity_list_create (Some s) = Ok lists ->
+  exists v, G_affinity (cstring s) v /\ lists = map (map wrap32) v.
+Proof. intros s lists. apply affinity_accepts_iff. Qed.
+Print Assumptions C20_affinity_sound.
+
+(* every string of the grammar is accepted, with that result *)
+Theorem C20_affinity_complete : forall s v,
+  G_affinity (cstring s) v -> affinity_list_create (Some s) = Ok (map (map wrap32) v).
+Proof. exact affinity_complete. Qed.
+Print Assumptions C20_affinity_complete.
+
+(* the values carried by the grammar are the documented formulas
+     <id-interval>:  id, id + stride, ..., id + stride * (num - 1)
+     <interval>:     L, {L[0] + stride, L[1] + stride, ...}, ..., {L[0] + stride * (num - 1), ...}
+   and when every documented id fits an int the parser returns exactly them *)
+Theorem C20_affinity_expand :
+  (forall id num stride,
+     expand_ids id num stride = map (fun i => id + stride * Z.of_nat i) (seq 0 (Z.to_nat num))) /\
+  (forall base num stride,
+     expand_lists base num stride =
+     map (fun i => map (fun x => x + stride * Z.of_nat i) base) (seq 0 (Z.to_nat num))) /\
+  (forall s v, G_affinity (cstring s) v ->
+     Forall (Forall (fun x => AF_INT_MIN <= x <= AF_INT_MAX)) v ->
+     affinity_list_create (Some s) = Ok v).
+Proof.
+  split; [reflexivity|]. split; [reflexivity|].
+  intros s v G Hfit. rewrite (affinity_complete s v G). f_equal.
+  rewrite <- (map_id v) at 2. apply map_ext_Forall. eapply Forall_impl; [|exact Hfit].
+  intros ids Hids. cbn. rewrite <- (map_id ids) at 2. apply map_ext_Forall.
+  eapply Forall_impl; [|exact Hids]. intros x Hx. now apply wrap32_small.
+Qed.
+Print Assumptions C20_affinity_expand.
+
+(* no signed int operation of the fixed code overflows, on any input *)
+Theorem C20_affinity_no_overflow : forall s, affinity_list_create s <> IntOvf.
+Proof. exact affinity_no_overflow. Qed.
+Print Assumptions C20_affinity_no_overflow.
+
+(* FINDING F3: the code as it stands does overflow: "99999999999" and "-2147483648" *)
+Theorem C20_affinity_no_overflow_refuted :
+  affinity_list_create_buggy (Some [57;57;57;57;57;57;57;57;57;57;57]) = IntOvf /\
+  affinity_list_create_buggy (Some [45;50;49;52;55;52;56;51;54;52;56]) = IntOvf.
+Proof. exact affinity_no_overflow_refuted. Qed.
+Print Assumptions C20_affinity_no_overflow_refuted.
+
+(* the fix changes the behaviour only on inputs where the code as it stands overflows *)
+Theorem C20_affinity_fix_conservative : forall s,
+  affinity_list_create_buggy s = IntOvf \/ affinity_list_create_buggy s = affinity_list_create s.
+Proof. exact affinity_fix_conservative. Qed.
+Print Assumptions C20_affinity_fix_conservative.
+
+(* allocation sizes: at most length * (MAX_NUM_ELEMS - 1) id lists, each of at most that
+   many ids; for strings of up to 4096 characters the uint32_t counters cannot wrap *)
+Theorem C20_affinity_alloc_bounded : forall s lists,
+  affinity_list_create (Some s) = Ok lists ->
+  len lists <= len (cstring s) * KMAX /\
+  Forall (fun ids => len ids <= len (cstring s) * KMAX) lists /\
+  (len (cstring s) <= 4096 ->
+   len lists < 4294967296 /\ Forall (fun ids => len ids < 4294967296) lists).
+Proof. exact affinity_alloc_bounded. Qed.
+Print Assumptions C20_affinity_alloc_bounded.
+
+(* non-vacuity: "{1:2:3}:3:-2,1" with blanks, "0:3:4", a wrap-around, NULL, junk *)
+Example C20_affinity_example :
+  affinity_list_create (Some [32;123;49;58;50;58;51;125;58;51;58;45;50;32;44;49;10])
+    = Ok [[1; 4]; [-1; 2]; [-3; 0]; [1]] /\
+  (exists v, G_affinity [48;58;51;58;52] v /\ map (map wrap32) v = [[0]; [4]; [8]]) /\
+  affinity_list_create (Some [50;49;52;55;52;56;51;54;52;55;58;50]) = Ok [[2147483647]; [-2147483648]] /\
+  affinity_list_create None = Fail /\
+  affinity_list_create (Some [49;58;50;58]) = Fail /\
+  affinity_list_create (Some [57;57;57;57;57;57;57;57;57;57;57]) = Fail.
+Proof.
+  split; [vm_compute; reflexivity|]. split.
+  - destruct (C20_affinity_sound [48;58;51;58;52] [[0]; [4]; [8]] ltac:(vm_compute; reflexivity)) as (v & G & E).
+    exists v. split; [exact G|now symmetry].
+  - repeat split; vm_compute; reflexivity.
+Qed.
+
+(* ================================================================== *)
+(* Numeric settings of ABTD_env_init (src/arch/abtd_env.c).  [c_env_init nc pg e]
+   = the fields written by ABTD_env_init when sysconf reports nc cores, the page
+   size is pg and the ABT_* / ABT_ENV_* variables are e; every unsigned C
+   operation wraps explicitly (wrapu).  [z_env_init] is the same computation in
+   exact integers. *)
+
+(* for EVERY environment (any strings) every setting lies in its documented
+   range with its documented rounding *)
+Theorem C20_env_clamped : forall nc pg e,
+  let s := c_env_init nc pg e in
+  1 <= max_xstreams s <= ENV_INT_MAX /\
+  (is_pow2 (key_table_size s) /\ 1 <= key_table_size s <= 2 ^ 31) /\
+  (is_pow2 (sys_page_size s) /\ 64 <= sys_page_size s <= 2 ^ 63) /\
+  ((64 | thread_stacksize s) /\ 512 <= thread_stacksize s <= 2 ^ 63) /\
+  ((64 | sched_stacksize s) /\ 512 <= sched_stacksize s <= 2 ^ 63) /\
+  1 <= sched_event_freq s <= ENV_UINT32_MAX /\
+  0 <= sched_sleep_nsec s <= ENV_UINT64_MAX /\
+  1 <= mutex_max_handovers s <= ENV_UINT32_MAX /\
+  1 <= mutex_max_wakeups s <= ENV_UINT32_MAX /\
+  4096 <= huge_page_size s <= ENV_SIZE_MAX /\
+  (is_pow2 (mem_page_size s) /\ 4096 <= mem_page_size s <= 2 ^ 63) /\
+  ((64 | mem_sp_size s) /\ 0 <= mem_sp_size s < 2 ^ 64 /\
+   (thread_stacksize s <= 2 ^ 61 - 64 -> thread_stacksize s * 4 <= mem_sp_size s <= 2 ^ 63)) /\
+  ((2 | mem_max_stacks s) /\ 2 <= mem_max_stacks s <= 2 ^ 31) /\
+  ((2 | mem_max_descs s) /\ 2 <= mem_max_descs s <= 2 ^ 31).
+Proof. exact env_clamped. Qed.
+Print Assumptions C20_env_clamped.
+
+(* the rounding is the least power of two / least multiple above the clamped value, and the
+   clamped value is the saturated parse of AtoiProofs.v or the default *)
+Theorem C20_env_rounding : forall nc pg e,
+  let s := c_env_init nc pg e in
+  key_table_size s = 2 ^ Z.log2_up (load_env_uint32 (get_abt_env e KEY_TABLE_SIZE) 4 1 ENV_UINT32_MAX) /\
+  sys_page_size s = 2 ^ Z.log2_up (load_env_size (get_abt_env e SYS_PAGE_SIZE) pg 64 ENV_SIZE_MAX) /\
+  mem_page_size s =
+    2 ^ Z.log2_up (64 * ((load_env_size (get_abt_env e MEM_PAGE_SIZE) 2097152 4096 ENV_SIZE_MAX + 63) / 64)) /\
+  mem_max_descs s = 2 * ((load_env_uint32 (get_abt_env e MEM_MAX_NUM_DESCS) 4096 2 ENV_UINT32_MAX + 1) / 2).
+Proof. exact env_rounding. Qed.
+Print Assumptions C20_env_rounding.
+
+Theorem C20_env_load_is_clamp : forall env d lo hi,
+  load_env_size env d lo hi =
+  match env with
+  | None => clampz lo hi d
+  | Some s => match spec_typed 0 U64MAX s with
+              | None => clampz lo hi d
+              | Some (v, _) => clampz lo hi v
+              end
+  end.
+Proof. exact load_env_size_spec. Qed.
+Print Assumptions C20_env_load_is_clamp.
+
+(* no intermediate overflow: when the system page size is at most 2^62 (or no mprotect
+   guard is requested) and the ULT stack size is below 2^62, no unsigned operation wraps *)
+Theorem C20_env_no_overflow : forall nc pg e,
+  (fst (env_get_stack_guard_mprotect e) = true -> sys_page_size (c_env_init nc pg e) <= 2 ^ 62) ->
+  thread_stacksize (c_env_init nc pg e) < 2 ^ 62 ->
+  c_env_init nc pg e = z_env_init nc pg e.
+Proof. exact env_no_overflow. Qed.
+Print Assumptions C20_env_no_overflow.
+
+(* the two places where it can wrap (both need absurd values):
+   ABT_THREAD_STACKSIZE=2^62: `thread_stacksize * 4` wraps to 0 and the lower bound of
+   ABT_MEM_STACK_PAGE_SIZE is lost (mem_sp_size 8 MB < 4 * thread_stacksize);
+   ABT_STACK_OVERFLOW_CHECK=mprotect with ABT_SYS_PAGE_SIZE=2^63: `sys_page_size * 2`
+   wraps to 0 and the default stack size is not enlarged. *)
+Example C20_env_overflow_witness :
+  let e1 := [(false, THREAD_STACKSIZE, [52;54;49;49;54;56;54;48;49;56;52;50;55;51;56;55;57;48;52])] in
+  let e2 := [(false, STACK_OVERFLOW_CHECK, [109;112;114;111;116;101;99;116]);
+             (false, SYS_PAGE_SIZE, [57;50;50;51;51;55;50;48;51;54;56;53;52;55;55;53;56;48;56])] in
+  thread_stacksize (c_env_init 16 4096 e1) = 4611686018427387904 /\
+  mem_sp_size (c_env_init 16 4096 e1) = 8388608 /\
+  mem_sp_size (c_env_init 16 4096 e1) < 4 * thread_stacksize (c_env_init 16 4096 e1) /\
+  sys_page_size (c_env_init 16 4096 e2) = 9223372036854775808 /\
+  thread_stacksize (c_env_init 16 4096 e2) = 16384 /\
+  thread_stacksize (z_env_init 16 4096 e2) = 9223372036854775808.
+Proof. vm_compute. repeat split; reflexivity. Qed.
+
+(* non-vacuity: defaults, and a mixed environment (ABT_ENV_ alias, junk suffix, negative, huge) *)
+Example C20_env_example :
+  let e := [(true, KEY_TABLE_SIZE, [53]);                                    (* ABT_ENV_KEY_TABLE_SIZE=5 *)
+            (false, THREAD_STACKSIZE, [50;48;48;48;56;120]);                 (* 20008x *)
+            (false, MAX_NUM_XSTREAMS, [45;51]);                              (* -3 *)
+            (false, MEM_MAX_NUM_DESCS, [57;57;57;57;57;57;57;57;57;57;57])]  (* 99999999999 *) in
+  let s := c_env_init 16 4096 e in
+  key_table_size s = 8 /\ thread_stacksize s = 20032 /\ max_xstreams s = 1 /\
+  mem_max_descs s = 2147483648 /\ mem_sp_size s = 8388608 /\ mem_max_stacks s = 1024 /\
+  c_env_init 16 4096 e = z_env_init 16 4096 e /\
+  thread_stacksize (c_env_init 16 4096 []) = 16384.
 Proof. vm_compute. repeat split; reflexivity. Qed.
